@@ -195,6 +195,30 @@ func init() {
 		e.shapeDef(s, um, "Unmarshaler.processNamedFieldWithValue", "withValueShape")
 		e.shapeDef(s, um, "Unmarshaler.processNamedField", "namedFieldShape")
 		e.shapeDef(s, fo, "fieldOptions.toOptionsWithContext", "toOptionsWithContextShape")
-		_ = token.ADD
+		// assignments to `optional` in toOptionsWithContext, in source order
+		if fd := s.findFunc(fo, "fieldOptions.toOptionsWithContext"); fd != nil {
+			var as []string
+			ast.Inspect(fd.Body, func(n ast.Node) bool {
+				if a, ok := n.(*ast.AssignStmt); ok && a.Tok == token.ASSIGN && len(a.Lhs) == 1 && s.src(a.Lhs[0]) == "optional" {
+					as = append(as, s.src(a))
+				}
+				return true
+			})
+			e.stringList("optionalAssignments", "assignments to `optional` in toOptionsWithContext", as)
+		} else {
+			e.stringList("optionalAssignments", "MISSING", []string{"MISSING"})
+		}
+		// the guard of the WithFromArray block in processNamedField
+		if fd := s.findFunc(um, "Unmarshaler.processNamedField"); fd != nil {
+			var gs []string
+			for _, st := range fd.Body.List {
+				if is, ok := st.(*ast.IfStmt); ok && strings.Contains(s.src(is.Cond), "fromArray") {
+					gs = append(gs, "if "+s.src(is.Cond))
+				}
+			}
+			e.stringList("fromArrayGuard", "guard of the WithFromArray block in processNamedField", gs)
+		} else {
+			e.stringList("fromArrayGuard", "MISSING", []string{"MISSING"})
+		}
 	})
 }
